@@ -62,6 +62,8 @@ static int flags, lf_count, in_probe, activity, midline;
 static int mtx_on, lockn, unlockn, lockfail[MAXFAIL], nlockfail, unlockfail[MAXFAIL], nunlockfail, locked;
 static int last_refused_byte = -1;
 static int in_service;
+static long n_handler_calls, n_writes, n_trig_calls, n_reads, n_u_hold;
+static uint8_t *buf_pristine, *ubuf_pristine;
 static long world_violations;
 static char world_violation_text[256];
 
@@ -74,6 +76,7 @@ static FILE *out;
 
 void w_set_output(FILE *f) { out = f; }
 long w_violations(void) { return world_violations; }
+long w_stat(int which) { return which == 0 ? n_handler_calls : which == 1 ? n_writes : which == 2 ? n_trig_calls : n_reads; }
 const char *w_violation_text(void) { return world_violation_text; }
 
 static void emit(const char *fmt, ...)
@@ -204,6 +207,7 @@ static int io_w(char c)
                 return rv;
         }
         last_refused_byte = -1;
+        n_writes++;
         emit("W %ld %02x\n", stepno, (uint8_t)c);
         return 1;
 }
@@ -226,6 +230,7 @@ static int io_r(char *c)
                 return 0;
         }
         activity = 1;
+        n_reads++;
         *c = (char)input[inpos];
         emit("R %ld %zu %02x\n", stepno, inpos, input[inpos]);
         if (input[inpos] == '\n') {
@@ -325,6 +330,7 @@ static void do_act(int kind, int a1, int a2, const uint8_t *a3, size_t a3len)
         case WA_TRIG:
                 if (a1 < 0 || a1 >= ncmd)
                         return;
+                n_trig_calls++;
                 if (a2 == 2) {
                         bracket_begin("trig_read");
                         r = cat_trigger_unsolicited_read(at, &cmds[a1]);
@@ -434,6 +440,7 @@ static cat_return_state h_text(const struct cat_command *c, uint8_t *d, size_t *
         struct step *s;
 
         activity = 1;
+        n_handler_calls++;
         if (mtx_on && locked != 1)
                 violation("handler-outside-lock");
         if (!inside)
@@ -464,6 +471,8 @@ static cat_return_state h_text(const struct cat_command *c, uint8_t *d, size_t *
         }
         hexout(d, *n < m ? *n : m);
         emit(" %d\n", code);
+        if (fsm == 1 && code == CAT_RETURN_STATE_HOLD)
+                n_u_hold++;   /* parks the command FSM (outside every statement, DESIGN 4.6): it may then emit a result code of its own */
         if (s && s->act)
                 do_act(s->act, s->a1, s->a2, s->a3, s->a3len);
         return (cat_return_state)code;
@@ -479,6 +488,7 @@ static cat_return_state h_write(const struct cat_command *c, const uint8_t *d, s
         size_t i;
         volatile uint8_t t = 0;
         activity = 1;
+        n_handler_calls++;
         if (mtx_on && locked != 1)
                 violation("handler-outside-lock");
         /* reads data[0..n] (including the terminator it is promised) */
@@ -501,6 +511,7 @@ static cat_return_state h_run(const struct cat_command *c)
         int ci = cmdidx(c), code;
         struct step *s = next_step(ci, 0, 2);
         activity = 1;
+        n_handler_calls++;
         if (mtx_on && locked != 1)
                 violation("handler-outside-lock");
         code = s ? s->code : CAT_RETURN_STATE_OK;
@@ -599,8 +610,9 @@ void w_reset(void)
         memset(groups, 0, sizeof groups);
         memset(acts, 0, sizeof(acts[0]) * (size_t)(nact ? nact : 1));
         ncmd = ngrp = nact = 0;
-        free(buf); free(ubuf); free(buf_shadow); free(ubuf_shadow);
-        buf = ubuf = buf_shadow = ubuf_shadow = NULL;
+        free(buf); free(ubuf); free(buf_shadow); free(ubuf_shadow); free(buf_pristine); free(ubuf_pristine);
+        buf = ubuf = buf_shadow = ubuf_shadow = buf_pristine = ubuf_pristine = NULL;
+        n_handler_calls = n_writes = n_trig_calls = n_reads = n_u_hold = 0;
         bufsz = ubufsz = ccap = ucap = 0;
         free(input);
         input = NULL;
@@ -890,6 +902,11 @@ void w_run(long budget, long stall_n)
         ubuf_shadow = malloc(ubufsz ? ubufsz : 1);
         if (ubufsz)
                 memcpy(ubuf_shadow, ubuf, ubufsz);
+        buf_pristine = malloc(bufsz ? bufsz : 1);
+        memcpy(buf_pristine, buf, bufsz);
+        ubuf_pristine = malloc(ubufsz ? ubufsz : 1);
+        if (ubufsz)
+                memcpy(ubuf_pristine, ubuf, ubufsz);
         snap_size = snapshot_size();
         snap_entry = malloc(snap_size + 1);
         snap_unlock = malloc(snap_size + 1);
@@ -980,6 +997,20 @@ void w_run(long budget, long stall_n)
                         }
 #endif
                 }
+        /* half isolation (C03): without any event the unsolicited region is never touched, without any input byte the
+         * command region is never touched */
+        {
+                size_t half = bufsz >> 1;
+                if (n_trig_calls == 0) {
+                        if (shared ? memcmp(buf + half, buf_pristine + half, bufsz - half) != 0
+                                   : (ubufsz && memcmp(ubuf, ubuf_pristine, ubufsz) != 0))
+                                violation("unsolicited-region-touched-without-event");
+                }
+                if (n_reads == 0 && n_u_hold == 0) {
+                        if (memcmp(buf, buf_pristine, shared ? half : bufsz) != 0)
+                                violation("command-region-touched-without-input");
+                }
+        }
         emit("Q %ld %s %ld %ld %d %d %zu %ld\nEND\n", stepno, why, refused_r, refused_w,
              mtx_on ? -9 : (int)cat_is_busy(at), mtx_on ? -9 : (int)cat_is_hold(at), inpos, refused_r_midline);
         if (out)
